@@ -66,6 +66,21 @@ def mkj(rnd, bits, side=L, p=0.3):
     return Buffer((int(body, 2).to_bytes(len(body) // 8, 'big') if body else b'') + junk, n, R)
 
 
+def mkmap(forward):
+    """Build a MatchMapping and remember the entries AS GIVEN (keys, indices, order): the neutral forms handed to the model and to the
+    reference are taken from what the caller provisioned, not from what the constructor made of it"""
+    from microschc.rfc8724 import MatchMapping
+    given = list(forward.items())
+    mm = MatchMapping(forward)
+    mm._given = given
+    return mm
+
+
+def given_items(mm):
+    g = getattr(mm, '_given', None)
+    return g if g is not None else list(mm.forward.items())
+
+
 def mkraw(content, length, side, pl=None):
     """Build a Buffer object with exactly these fields (bypassing the constructor's normalisation)."""
     b = Buffer(b'', 0, side)
